@@ -724,6 +724,21 @@ def it_chan(r, ctx):
             model.pop(0)
             cnt -= 1
     closed = r.random() < 0.1
+    if not closed and r.random() < 0.3:
+        # givers blocked on the full channel when the image is taken: their items are in the queue beyond the capacity
+        while cnt < cap:
+            L.append("(ev/give c [:fill %d])" % cnt)
+            model.append("fill")
+            cnt += 1
+        nb = r.randint(1, 3)
+        for j in range(nb):
+            L.append("(ev/spawn (protect (ev/with-deadline 0.05 (ev/give c [:blocked %d]))))" % j)
+            model.append("blocked")
+        L.append("(ev/sleep 0)")
+        cnt += nb
+        cap_over = True
+    else:
+        cap_over = False
     if closed:
         L.append("(ev/chan-close c)")
     b = "((fn [] %s c))" % " ".join(L)
@@ -738,7 +753,7 @@ def it_chan(r, ctx):
         elif cnt > 0 and r.random() < 0.7:
             ops.append({"cls": "channel/queued-items", "e": take, "gnodes": gn})
             cnt -= 1
-        elif cnt < cap:
+        elif cnt < cap and not cap_over:
             k += 1
             ops.append({"cls": "channel/give-after-restore", "e": "(do (ev/give X [:late %d]) (ev/count X))" % k})
             cnt += 1
